@@ -110,6 +110,17 @@ def space(n, kinds, atoms, mtxs, k, main_k):
     return out
 
 
+def space_joined(n, kinds, atoms, mtxs, k, finals):
+    """spawned threads of k blocks each; main spawns them, joins them all (JoinHandle::join = Notify::wait) and then loads `finals`"""
+    B = [b for kd in kinds for b in blocks_of(kd, atoms, mtxs)]
+    codes = [sum(c, []) for c in itertools.product(B, repeat=k)]
+    out = []
+    for ix in itertools.combinations_with_replacement(range(len(codes)), n - 1):
+        main = [("spawnall", "none")] + [("join", f"j{t}") for t in range(2, n + 1)] + [("ld", o) for o in finals]
+        out.append([main] + [list(codes[i]) + [("ntf", f"j{t + 2}")] for t, i in enumerate(ix)])
+    return out
+
+
 def ctl_after_nonbranching(p):
     """a control call right after an operation that is no scheduling point in loom (unlock, unpark): the decision 'who runs after
     the last real scheduling point' is then taken inside the region although the program text puts it before - such programs
@@ -188,6 +199,8 @@ def to_dsl(p, name):
                 th.append(I("park"))
             elif op == "unpark":
                 th.append(dsl.unpark(o))
+            elif op == "join":
+                th.append(dsl.join(int(o[1:])))
             elif op == "ntf":
                 pass
             else:
